@@ -480,3 +480,40 @@ Example ex_seq_second_serves :
   serve_seq dispatch_cond method_reject [] RWRestoreOnMiss 8 ex_rs [0; 1]%nat (new_ctx (slash :: s_b) s_get)
   = ([(2%Z, [])], 0, []).
 Proof. vm_compute. reflexivity. Qed.
+
+(** * Round 3 (seeded change C20-g): handlers may write to what the context hands them *)
+
+(** Every exported accessor of [C] with a slice or map result (read off the
+    source by the translator) returns a freshly allocated value. *)
+Theorem C20_ctx_accessors_fresh :
+  forallb (fun na => acc_freshb (snd na)) gen_ctx_accessors = true.
+Proof. exact gen_ctx_accessors_fresh. Qed.
+Print Assumptions C20_ctx_accessors_fresh.
+
+(** Hence: WHATEVER the handlers write to the RelRoute they were handed
+    ([lw] arbitrary), routers tried in a row on one context run the same
+    leaves and give the same answer as with handlers that write nothing -
+    dispatch stays a function of the request's own path. *)
+Theorem C20_handler_writes_cannot_redirect : forall le lw fuel rs is c,
+  serve_seq_w gen_dispatch_cond gen_method_reject le (acc_of relroute_name gen_ctx_accessors) lw
+              gen_router_wrap fuel rs is c
+  = seq_ref gen_dispatch_cond gen_method_reject le fuel rs is c.
+Proof.
+  intros. rewrite gen_relroute_fresh, gen_router_wrap_ok, serve_seq_w_fresh.
+  pose proof (serve_seq_is_ref gen_dispatch_cond gen_method_reject le fuel rs is c) as H.
+  destruct (serve_seq gen_dispatch_cond gen_method_reject le RWRestoreOnMiss fuel rs is c) as [[hs f] rl].
+  exact H.
+Qed.
+Print Assumptions C20_handler_writes_cannot_redirect.
+
+(** An accessor that hands out the context's own slice: GET /docs/secret,
+    the handler of the directory "docs" overwrites what it was handed with
+    "index" and misses; the next router then runs the handler of
+    "docs/index".  With the copy it answers Miss. *)
+Theorem C20_alias_accessor_refuted :
+  serve_seq_w dispatch_cond method_reject [(1, 1)] AccAlias ex_lw RWRestoreOnMiss 8 ex_rs_w [0; 1]%nat ex_ctx_w
+    = ([(1%Z, s_secret); (2%Z, [])], 0) /\
+  serve_seq_w dispatch_cond method_reject [(1, 1)] AccFresh ex_lw RWRestoreOnMiss 8 ex_rs_w [0; 1]%nat ex_ctx_w
+    = ([(1%Z, s_secret)], 1).
+Proof. exact alias_accessor_refuted. Qed.
+Print Assumptions C20_alias_accessor_refuted.
